@@ -494,6 +494,11 @@ func specialScripts(thorough bool) []special {
 	add("cyclic-set-attempt", "cyclic-data", `s := {1}; s.add(s)`)
 	add("cyclic-map-key-attempt", "cyclic-data", `m := {}; m[m] = m`)
 	add("cyclic-function-default", "cyclic-data", `func f(a=f) { return a }; f()`)
+	// a list that holds its own bound map method: builtin calls builtin, no script frame in between
+	add("cyclic-builtin-callback", "cyclic-data", `l := [0]; m := l.map; l[0] = m; m(m)`)
+	add("cyclic-builtin-callback-try", "cyclic-data", `try(func() { l := [0]; m := l.map; l[0] = m; return m(m) }, func(e) { return "caught" })`)
+	add("cyclic-builtin-callback-each", "cyclic-data", `l := [0]; e := l.each; l[0] = e; e(e)`)
+	add("cyclic-builtin-callback-filter", "cyclic-data", `l := [0]; f := l.filter; l[0] = f; f(f)`)
 	// parameters whose declared default is nil, left unfilled at the call
 	for i, src := range []string{
 		`func f(a, b=1, c=nil) { return [a, b, c] }; f(7, 8)`,
